@@ -94,7 +94,8 @@ class Increments(Machine):
                        "graph_edgeless", "graph_chain", "graph_cycle", "graph_tree", "graph_directed", "graph_directed_any",
                        "graph_tree_high_root",
                        "object_backed", "malformed_increment_refused", "active_count_lowered_between_increments",
-                       "rank_deficient_with_more_samples_than_features", "one_iterator_feeds_constructor_and_increments")
+                       "rank_deficient_with_more_samples_than_features", "one_iterator_feeds_constructor_and_increments",
+                       "integer_dtype_samples", "first_batch_of_one_sample_centred", "first_batch_of_one_sample_uncentred")
 
     @classmethod
     def _cfg(cls, rng):
@@ -105,6 +106,11 @@ class Increments(Machine):
         if fam.startswith("pca"):
             cfg.update(centred=rng.random() < 0.65, d=rng.randint(2, 10) if fam == "pca_vec" else 2 * rng.randint(2, 5))
             cfg["n0"] = rng.randint(2, 14)
+            if rng.random() < 0.08:
+                cfg["n0"] = 1       # a model that starts from a single sample
+            if fam == "pca_vec" and rng.random() < 0.12:
+                cfg["intdata"] = 1  # whole-number data handed over as an integer array
+                cfg["scale_exp"] = 0
             if rng.random() < 0.2:
                 # a rank-deficient beginning: for the first `flat` samples one feature is an exact multiple of another
                 cfg["flat"] = cfg["n0"] + rng.randint(0, 6)
@@ -148,8 +154,8 @@ class Increments(Machine):
 
     @classmethod
     def exhaustive(cls, tier):
-        """All compositions: PCA - every composition of n (first part >= 2); GMRF - fixed first
-        batch, every composition of the remaining m samples."""
+        """All compositions: PCA - every composition of n (a first batch of ONE sample included); GMRF - fixed
+        first batch, every composition of the remaining m samples."""
         big = tier == "thorough"
         nmax, seeds = (8, 6) if big else (6, 2)
         for seed in range(seeds):
@@ -157,7 +163,7 @@ class Increments(Machine):
                 for d in ((3, 6) if big else (4,)):
                     for n in range(3, nmax + 1):
                         for comp in compositions(n):
-                            if comp[0] < 2:
+                            if len(comp) < 2:
                                 continue
                             cfg = {"family": "pca_vec", "seed": 900 + seed, "centred": centred, "d": d,
                                    "n0": comp[0], "steps": len(comp) - 1, "style": "exhaustive", "kind": "exhaustive"}
@@ -192,6 +198,9 @@ class Increments(Machine):
             else:
                 ctx.probe("pca_uncentred")
             X = X * 10.0 ** cfg.get("scale_exp", 0)
+            if cfg.get("intdata"):
+                X = np.round(X * 4.0)
+                ctx.probe("integer_dtype_samples")
             if cfg.get("flat") and d >= 2:
                 i, j = (int(v) for v in g.permutation(d)[:2])
                 X[:cfg["flat"], j] = 2.0 * X[:cfg["flat"], i]      # exact in floating point
@@ -225,8 +234,10 @@ class Increments(Machine):
             self.model = self._gmrf(X[:self.pos], cfg["incremental"], live=True)
             self._compare_gmrf()
 
-    def _samples(self, rows):
+    def _samples(self, rows, live=False):
         if self.tmpl is None:
+            if live and self.cfg.get("intdata"):
+                return rows.astype(np.int64)       # the same whole numbers, as integers (the oracle gets floats)
             return rows.copy()
         return [self.tmpl.from_vector(r.copy()) for r in rows]
 
@@ -237,7 +248,7 @@ class Increments(Machine):
                 self.stream = (self.tmpl.from_vector(r.copy()) for r in self.X)
             self.ctx.probe("one_iterator_feeds_constructor_and_increments")
             return self.stream, {"n_samples": int(rows.shape[0])}
-        return self._samples(rows), {}
+        return self._samples(rows, live), {}
 
     def _pca(self, rows, live=False):
         cls_ = PCAVectorModel if self.tmpl is None else PCAModel
@@ -279,6 +290,8 @@ class Increments(Machine):
             if self.fam.startswith("pca"):
                 try:
                     k = int(self.model.n_components)
+                    if k < 1:
+                        return      # a model of one sample has no component to de-activate
                     self.low = max(1, k - op["size"])
                     self.model.n_active_components = self.low
                     ctx.probe("active_count_lowered_between_increments")
@@ -293,7 +306,7 @@ class Increments(Machine):
         if s < 1 or self.pos + s > STREAM:
             return
         chunk = self.X[self.pos:self.pos + s]
-        arg = self._samples(chunk)
+        arg = self._samples(chunk, live=True)
         snap = chunk.copy()
         if self.fam.startswith("gmrf") and not self.cfg["incremental"]:
             try:
@@ -337,6 +350,8 @@ class Increments(Machine):
         ctx = self.ctx
         m = self.model
         low = getattr(self, "low", None)
+        if low is not None and int(m.n_components) < 1:
+            low = None
         if low is not None:
             try:
                 m.n_active_components = int(m.n_components)     # look at everything the model kept
@@ -369,6 +384,24 @@ class Increments(Machine):
                     lambda: "mean differs by %.3g after composition %r" % (err, self.comp))
         lb = np.asarray(b.eigenvalues, float)
         li = np.asarray(m.eigenvalues, float)
+        if n == 1 or len(lb) == 0:
+            # one sample: nothing varies yet (menpo's divisor n - 1 is 0); both models are empty
+            ctx.require(len(li) == len(lb) == 0 or (len(li) == len(lb) and np.allclose(li, lb)), "incremental_equals_batch", "pca_single_sample_" + tag,
+                        lambda: "eigenvalues %r vs batch %r" % (li.tolist(), lb.tolist()))
+            ctx.probe("model_of_a_single_sample")
+            return
+        if self.comp[0] == 1:
+            ctx.probe("first_batch_of_one_sample_" + tag)
+            if not self.cfg["centred"] and not (len(li) == len(lb) and np.abs(li - lb).max() <= 1e-8 * lb[0]):
+                # known finding: an un-centred model of one sample has no component and no mean, i.e. no trace of
+                # its sample; the increments then give exactly the model of the OTHER samples (divisor still n - 1)
+                R = rows[1:]
+                l2 = np.linalg.svd(R, compute_uv=False) ** 2 / (n - 1)
+                l2 = l2[l2 > 1e-10 * l2[0]]
+                if len(li) == len(l2) and np.abs(li - l2).max() <= 1e-8 * l2[0]:
+                    ctx.fail("incremental_equals_batch", "pca_uncentred_first_batch_of_one_sample_is_forgotten",
+                             "composition %r: eigenvalues %r are those of samples 2..n alone (all samples: %r)" % (self.comp, li.tolist(), lb.tolist()))
+                    return
         # cross-check the batch oracle with the harness' own SVD
         Xc = rows - rows.mean(0) if self.cfg["centred"] else rows
         sv = np.linalg.svd(Xc, compute_uv=False) ** 2 / (n - 1)
